@@ -27,7 +27,7 @@ RULE = (
     "`roots` stream; a separate malformed stream (equal "
     "directory hash over different children, file entries with children, directory entries without "
     "isdir metadata) where only model = implementation is required; the three _diff_* deciders on the "
-    "full abstract product 37 x 37 entries x 32 flag sets (+ 8 x 8 metas x 4 cmp keys, 6 x 6 hashes), each "
+    "full abstract product 31 x 31 entries x 32 flag sets (+ 8 x 8 metas x 4 cmp keys, 6 x 6 hashes), each "
     "also judged by the independent key-by-key classification; info/ls/has_node on every node and some "
     "non-nodes. A diff case is non-trivial when it reports >= 2 changes of >= 2 kinds or a rename."
 )
@@ -52,7 +52,7 @@ ASSUMPTIONS = [
     "swap is proved for any options incl. shallow and renames (C08_swap_gen / C08_swap_renames_gen)",
     "set iteration order (old_items.keys() | new_items.keys()) is unobservable: outputs are compared as multisets",
     "the translator (translator/units.py units `types`, `idiff`) is trusted as far as the exhaustive decider "
-    "correspondence (37 x 37 entries x 32 flag sets against the real functions) does not exercise it; the "
+    "correspondence (31 x 31 entries x 32 flag sets against the real functions) does not exercise it; the "
     "decider oracle judges the real functions independently of the translation",
 ]
 
@@ -832,7 +832,7 @@ def sample_codes(ctx, k):
 def decider_universe():
     metas = [None, {}, {"size": 1}, {"isexec": True}, {"isdir": True}, {"etag": "e"}, {"etag": "f"}, {"md5": "m"}]
     hashes = [None, [None, None], ["md5", ""], ["md5", "h1"], ["md5", "h2"], ["sha256", "h1"]]
-    emetas = [None, {}, {"size": 1}, {"isexec": True}, {"etag": "e"}, {"md5": "m"}]
+    emetas = [None, {}, {"size": 1}, {"etag": "e"}, {"md5": "m"}]
     entries = [None] + [(m, h) for m in emetas for h in hashes]
     return metas, hashes, entries
 
@@ -1209,8 +1209,8 @@ def run(ctx):
     for c in corpus_cases():
         bundles.append(c)
         ctx.count("stream:corpus")
-    n_pairs = ctx.n(200, 3500)
-    n_codes = ctx.n(6, 12)
+    n_pairs = ctx.n(160, 3500)
+    n_codes = ctx.n(5, 12)
     n_bad = ctx.n(60, 700)
     wf_pairs = []
     attempts = 0
@@ -1255,7 +1255,7 @@ def run(ctx):
 
     # lazily loaded directory entries (object storage in the storage map), mounted at the root key or below
     lazy_main = []
-    for _ in range(ctx.n(30, 400)):
+    for _ in range(ctx.n(26, 400)):
         bs = gen_lazy_bundles(ctx, max(3, n_codes // 2))
         bundles += bs
         lazy_main += bs[:1]
@@ -1291,7 +1291,7 @@ def run(ctx):
 
     # info / ls / has_node
     titems = []
-    for old, new in wf_pairs[: ctx.n(40, 300)]:
+    for old, new in wf_pairs[: ctx.n(30, 300)]:
         for entries in (old, new):
             if not entries:
                 entries = []
